@@ -278,7 +278,7 @@ pub enum Statement {
         var: Ref,
         span: Span,
         variables: Vec<String>,
-        fields: HashMap<String, (Span, Type)>,
+        fields: BTreeMap<String, (Span, Type)>,
         external: bool,
     },
 
@@ -287,7 +287,7 @@ pub enum Statement {
         var: Ref,
         span: Span,
         variables: Vec<String>,
-        variants: HashMap<String, (Span, Type)>,
+        variants: BTreeMap<String, (Span, Type)>,
     },
 
     /// Defines a new variable.
@@ -882,8 +882,11 @@ impl Resolver {
                     var,
                     span,
                     variables: variables.iter().map(|var| var.name.clone()).collect(),
+                    // Sorted, so the first error reported doesn't depend on the hash order.
                     fields: fields
                         .iter()
+                        .collect::<BTreeMap<_, _>>()
+                        .into_iter()
                         .map(|(field, ty)| Ok((field.name.clone(), (field.span, self.ty(ty)?))))
                         .collect::<ResolveResult<_>>()?,
                     external: *external,
@@ -896,8 +899,11 @@ impl Resolver {
                     var,
                     span,
                     variables: variables.iter().map(|var| var.name.clone()).collect(),
+                    // Sorted, so the first error reported doesn't depend on the hash order.
                     variants: variants
                         .iter()
+                        .collect::<BTreeMap<_, _>>()
+                        .into_iter()
                         .map(|(var, ty)| Ok((var.name.clone(), (var.span, self.ty(ty)?))))
                         .collect::<ResolveResult<_>>()?,
                 })
